@@ -83,7 +83,7 @@ func HTTP(seed uint64, n int) *Out {
 		got := dispatchOf(req)
 		id := o.Add("dispatch:"+m, ct, fmt.Sprintf("(HD $ID %s %s %s)", eng.CoqStr(m), eng.CoqStr(ct), got))
 		if want := rfcSource(m, ct); want != got {
-			// the one recorded finding: the media type is written in upper case or with white space around it
+			// (repaired in /repo: the media type written in upper case or with white space around it)
 			typ := strings.SplitN(ct, ";", 2)[0]
 			tag := "dispatch_media"
 			if typ != strings.ToLower(strings.TrimSpace(typ)) {
@@ -111,6 +111,41 @@ func HTTP(seed uint64, n int) *Out {
 			ct += tail
 		}
 		mkcase(eng.Pick(r, methods), ct)
+	}
+	// random spellings of the media type: letter case, white space of every kind around it, the two
+	// non-ASCII runes that lower-case into ASCII, look-alikes that must not match, invalid UTF-8
+	for i := 0; i < n/4; i++ {
+		base := eng.Pick(r, []string{"application/json", "application/x-www-form-urlencoded", "application/jsonp", "text/json"})
+		b := []rune(base)
+		var sb strings.Builder
+		for _, c := range b {
+			switch {
+			case c >= 'a' && c <= 'z' && r.P(30):
+				sb.WriteRune(c - 32)
+			case c == 'i' && r.P(4):
+				sb.WriteRune(0x130)
+			case c == 'k' && r.P(4):
+				sb.WriteRune(0x212A)
+			case c == 's' && r.P(3):
+				sb.WriteRune(0x17F) // long s: upper-cases to S but does not lower-case to s
+			case r.P(1):
+				sb.WriteString("\xff")
+			default:
+				sb.WriteRune(c)
+			}
+		}
+		ws := []string{" ", "\t", "\n", "\v", "\f", "\r", "\u0085", "\u00a0", "\u1680", "\u2003", "\u2028", "\u202f", "\u205f", "\u3000", "\u200b", "\ufeff", "x", "\xc2"}
+		ct := sb.String()
+		for j := r.Intn(3); j > 0; j-- {
+			ct = eng.Pick(r, ws) + ct
+		}
+		for j := r.Intn(3); j > 0; j-- {
+			ct += eng.Pick(r, ws)
+		}
+		if r.P(50) {
+			ct += eng.Pick(r, []string{";", "; charset=utf-8", ";x", " ;q=1"})
+		}
+		mkcase(eng.Pick(r, methods[2:]), ct)
 	}
 	// URL parameters
 	qs := []string{"", "a=1", "a=1&a=2", "a=1&a=2&a=3", "a[]=1", "a[]=1&a[]=2", "a[]=", "a=", "a=&a=", "a=1&b=2", "b=2", "a[]=1&a=2", "a=x&a[]=y&a[]=z", "[]=1", "x[]=1", "a%5B%5D=7", "A=1", "a=%20", "ab[]=1&ab[]=2&ab=3"}
